@@ -184,4 +184,19 @@ theorem run_induction {cfg : Cfg} {P : State → Prop}
       simp only [hst] at hr
       exact ih s₁ s' (hre.step hst) (hstep _ _ _ hre hp hst) hr
 
+/-! ### terminal states -/
+
+theorem result_of_terminal {s : State} (ht : terminal s = true) : ∃ r, s.main = .finished r := by
+  unfold terminal at ht
+  split at ht
+  · exact ⟨_, ‹_›⟩
+  · simp at ht
+
+theorem terminal_of_result {s : State} {r : Result} (h : result? s = some r) :
+    s.main = .finished r := by
+  unfold result? at h
+  split at h
+  · simp only [Option.some.injEq] at h; subst h; assumption
+  · simp at h
+
 end Torf.Pipeline
